@@ -216,6 +216,20 @@ def workload(r, k: int):
     """(cfg, stmts) for workload k; deterministic from the rng."""
     cls = r.choice("TQG")
     ar = 3 if cls == "T" else 4
+    if k % 2 == 1:
+        # churn: statements with several distinct keys per table (quoted triples), tables at their smallest,
+        # so that slots are evicted all the time -- any dependence of the eviction order on set / dict
+        # iteration order (PYTHONHASHSEED) or on other streams shows in the bytes
+        g = genmod.Gen(r, nprefix=r.randint(4, 7), nname=r.randint(9, 14), ndt=2)
+        stmts = g.statements(r.choice([12, 25]), ar, prepeat=0.15)
+        need = genmod.table_need(stmts)
+        cfg = genmod.random_cfg(r, cls, need)
+        cfg.maxn = max(8, need[0])
+        cfg.maxp = max(1, need[1])
+        cfg.maxd = max(1, need[2])
+        cfg.delim = True
+        cfg.frame_size = r.choice([1, 2, 3, 250])
+        return cfg, stmts
     g = genmod.Gen(r, nprefix=r.randint(1, 4), nname=r.randint(2, 6), ndt=2)
     stmts = g.statements(r.choice([2, 4, 7, 12]), ar)
     need = genmod.table_need(stmts)
@@ -791,6 +805,34 @@ def c14(ctx):
                         "impl": impl["trace"][:500], "model": "", "corresponds": True, "property_violation": {"what": pv}, "signature": {}})
         if i < 2:
             ctx.report.sample({"family": "EN/namespaces", "ns": case["ns"], "cfg": cfg.as_json()})
+    # several sinks through ONE stream (grouped_stream_to_file): every sink's bindings must be written in
+    # front of that sink's statements, also the ones an earlier sink has announced already, and a prefix
+    # re-bound and bound back must read back in that order
+    pool_ns = [("ex", "http://example.org/"), ("ex", "http://example.com/other#"), ("v", "http://example.org/vocab/"), ("", "http://d.example/"), ("w", "urn:w:")]
+    for i in range(ctx.n(60, 900)):
+        ar = r.choice([3, 4])
+        cls = "T" if ar == 3 else "Q"
+        g = genmod.Gen(r, nprefix=2, nname=4, ndt=1)
+        sinks = []
+        for _ in range(r.randint(2, 4)):
+            sst = g.statements(r.randint(1, 3), ar, quoted=False)
+            sns = [r.choice(pool_ns) for _ in range(r.randint(1, 3))]
+            # within one sink a prefix is bound once (dict semantics of the sink)
+            seen, uniq = set(), []
+            for a, b in sns:
+                if a not in seen:
+                    seen.add(a)
+                    uniq.append((a, b))
+            sinks.append((sst, uniq))
+        cfg = Cfg(cls=cls, logical=r.choice([{"T": 3, "Q": 4}[cls], {"T": 1, "Q": 2}[cls]]), nd=True, delim=True, maxn=4000, maxp=150, maxd=32,
+                  frame_size=r.choice([2, 250]), gen=True, star=True)
+        case = {"cfg": cfg, "stmts": [x for sst, _ in sinks for x in sst], "ns": [], "sink": False, "entry": "grouped_file", "sinks": sinks, "oracles": ["roundtrip"]}
+        ctx.report.evaluations += 1
+        ctx.report.count("C14/grouped-shared-bindings")
+        ctx.report.nontrivial.add(("grouped", cfg.tok(), tuple(tuple(b) for _, b in sinks)))
+        d = fam_encode.run_case(ctx, case)
+        if d:
+            out.append(d)
     # rdflib
     import rdflib
 
